@@ -121,3 +121,27 @@ void h_shared_strings(void) {
   VASSERT(o.f6 == o.f4, "every block is returned at destruction");
   if (same) VWITNESS("shared"); else VWITNESS("distinct");
 }
+
+/* ---- C18: arrays differing only by a trailing null are not equal, in either operand order */
+#ifndef N1NULL
+#define N1NULL 1
+#define N2NULL 0
+#endif
+void h_arr_eq_null(void) {
+  int32_t x = (int32_t)vin_u32(), z = (int32_t)vin_u32();
+  unsigned r = w_arr_eq_null((uint32_t)x, (uint32_t)z, N1NULL, N2NULL);
+  int expect = x == z && N1NULL == N2NULL;
+  VASSERT((r & 1) == (unsigned)expect && ((r >> 1) & 1) == (unsigned)expect, "arrays compare element-wise INCLUDING their lengths: a trailing null is an element; symmetric");
+  VWITNESS("any");
+}
+/* ---- C04: adding an unbound (null) array / object / variant reference adds a null element */
+#ifndef UNB
+#define UNB 0
+#endif
+void h_set_unbound(void) {
+  int32_t a = (int32_t)vin_u32(); struct S_Hist h; memset(&h, 0, sizeof h); w_set_unbound((uint32_t)a, UNB, &h);
+  VASSERT(h.f0 == 2 && h.f1 == 2 && (int32_t)h.f8.e[0] == a, "the array has its first element and one more");
+  VASSERT(h.f7 == 1 && h.f3 == 0 && h.f4 == 0 && (int32_t)h.f8.e[1] == -1000, "an unbound source copies as null: not an empty array, not an empty object");
+  VASSERT(h.f6 == 1, "nesting unchanged");
+  VWITNESS("any");
+}
